@@ -184,8 +184,10 @@ pub fn exec_c04(plan: &C04Plan, st: &mut Stats) -> Option<Violation> {
                 }
                 // accepted
                 st.inc("accepted_calls");
-                let now = snap_last(&slot.state)?;
-                let hdr = hdr_last(&slot.state)?;
+                let (now, hdr) = match (snap_last(&slot.state), hdr_last(&slot.state)) {
+                    (Some(n), Some(h)) => (n, h),
+                    _ => return viol("no most recent picture after a successful decode", format!("step {si} ({}): the call returned Ok but get_last_picture() is None", p.note)),
+                };
                 let disposable = hdr.ptype == "DisposablePFrame";
                 if clean {
                     let s = spec.unwrap();
@@ -236,7 +238,7 @@ pub fn exec_c04(plan: &C04Plan, st: &mut Stats) -> Option<Violation> {
                             r.new_reader();
                             r.feed(&pb);
                             if r.decode().is_ok() {
-                                let rs = snap_last(&r.state)?;
+                                let Some(rs) = snap_last(&r.state) else { continue };
                                 if rs.y != now.y || rs.cb != now.cb || rs.cr != now.cr {
                                     return viol("disposable picture not decoded like a predicted picture", format!("step {si} ({}): planes differ from the same picture marked P", p.note));
                                 }
